@@ -5,17 +5,21 @@ package model
 
 import (
 	"bufio"
+	"context"
 	"encoding/json"
 	"fmt"
 	"math"
 	"os"
+	"os/exec"
 	"path/filepath"
 	"regexp"
+	"slices"
 	"sort"
 	"strconv"
 	"strings"
 	"sync"
 	"testing"
+	"time"
 	"unicode/utf8"
 
 	"github.com/ollama/ollama/zzverif"
@@ -177,6 +181,146 @@ func TestVerifC20Table(t *testing.T) {
 		fmt.Fprintf(f, "problem 0 0 %s\n", strings.ReplaceAll(p, "\n", " "))
 	}
 	verifSPMTables(f)
+	// finding empty-special-hang: which variant does the tree have?
+	sv := (&Vocabulary{Values: []string{"a", "", "b"}, Types: []uint32{TOKEN_TYPE_NORMAL, TOKEN_TYPE_CONTROL, TOKEN_TYPE_NORMAL}}).SpecialVocabulary()
+	fmt.Fprintf(f, "emptyspecial specialvocab %s\n", map[bool]string{true: "returned", false: "skipped"}[slices.Contains(sv, "")])
+	for _, fam := range []string{"bpe", "spm"} {
+		fmt.Fprintf(f, "emptyspecial %s %s\n", fam, strings.Fields(verifRunChild(fam+" 0 "+zzverif.Hex([]byte("ab"))))[0])
+	}
+}
+
+// ---- finding empty-special-hang: a vocabulary with an empty CONTROL token.  Encode may never return, so it is only ever
+// called in a CHILD process (this test binary re-executed) that reports "hang" after 1.5 s of its own clock and exits.
+
+// verifEmptySpecialVocab: variant 0 = empty CONTROL token in the middle, 1 = empty CONTROL token first + another special,
+// 2 = empty token typed NORMAL (not special: must behave like any vocabulary), 3 = empty CONTROL token last
+func verifEmptySpecialVocab(variant int) *Vocabulary {
+	v := &Vocabulary{BOS: -1, EOS: -1, EOT: -1}
+	add := func(s string, ty uint32) {
+		v.Values = append(v.Values, s)
+		v.Types = append(v.Types, ty)
+		v.Scores = append(v.Scores, -float32(len(v.Values)))
+	}
+	emptyType := uint32(TOKEN_TYPE_CONTROL)
+	if variant == 2 {
+		emptyType = TOKEN_TYPE_NORMAL
+	}
+	if variant == 1 {
+		add("", emptyType)
+	}
+	for _, s := range []string{"a", "b", "ab", "c", " ", "▁"} {
+		add(s, TOKEN_TYPE_NORMAL)
+		if s == "b" && (variant == 0 || variant == 2) {
+			add("", emptyType)
+		}
+	}
+	add("<s>", TOKEN_TYPE_CONTROL)
+	for b := 0; b < 256; b++ {
+		add(fmt.Sprintf("<0x%02X>", b), TOKEN_TYPE_BYTE)
+	}
+	if variant == 3 {
+		add("", emptyType)
+	}
+	v.Merges = []string{"a b"}
+	return v
+}
+
+func verifEmptySpecialTok(fam string, variant int) *verifTok {
+	v := verifEmptySpecialVocab(variant)
+	name := fmt.Sprintf("emptysp-%s-%d", fam, variant)
+	if fam == "bpe" {
+		pre := `\p{L}+|\s+|.`
+		bpe := NewBytePairEncoding(pre, v)
+		return (&verifTok{name: name, family: "bpe", tp: bpe, bpe: &bpe, vocab: v, maxRunes: 8, pre: pre}).asTemplate()
+	}
+	return (&verifTok{name: name, family: "spm", tp: NewSentencePieceModel(v), vocab: v, maxRunes: 8}).asTemplate()
+}
+
+// TestVerifC20EmptyChild: the child side ("<fam> <variant> <texthex>" in VERIF_C20_CHILD)
+func TestVerifC20EmptyChild(t *testing.T) {
+	f := strings.Fields(os.Getenv("VERIF_C20_CHILD"))
+	if len(f) != 3 {
+		t.Skip("child only")
+	}
+	variant, _ := strconv.Atoi(f[1])
+	tk := verifEmptySpecialTok(f[0], variant)
+	done := make(chan string, 1)
+	go func() {
+		ids, err := tk.tp.Encode(string(zzverif.Unhex(f[2])), false)
+		if err != nil {
+			done <- "error " + err.Error()
+			return
+		}
+		done <- "returned " + verifIds(ids)
+	}()
+	select {
+	case r := <-done:
+		fmt.Println("C20CHILD " + r)
+	case <-time.After(1500 * time.Millisecond):
+		fmt.Println("C20CHILD hang")
+		os.Exit(0)
+	}
+}
+
+// verifRunChild: "hang" | "returned <ids>" | "error ..." (the parent's own 60 s limit is only a backstop)
+func verifRunChild(spec string) string {
+	ctx, cancel := context.WithTimeout(context.Background(), 60*time.Second)
+	defer cancel()
+	cmd := exec.CommandContext(ctx, os.Args[0], "-test.run=^TestVerifC20EmptyChild$", "-test.count=1")
+	cmd.Env = append(os.Environ(), "VERIF_C20_CHILD="+spec)
+	raw, err := cmd.CombinedOutput()
+	for _, line := range strings.Split(string(raw), "\n") {
+		if rest, ok := strings.CutPrefix(line, "C20CHILD "); ok {
+			return strings.TrimSpace(rest)
+		}
+	}
+	return fmt.Sprintf("error child gave no answer (%v)", err)
+}
+
+// verifEmptySpecialCase: one case line "emptyspecial <fam> <variant> <texthex>".  Hang -> L2 `encode-hang` (the property's
+// Encode does not even return); otherwise the call is safe to repeat in-process and goes through the normal L1 + L2 path.
+func verifEmptySpecialCase(enc [256]int, fam string, variant int, text string, childAnswer string, out *zzverif.Out) {
+	out.Count("emptyspecial_cases")
+	cl := fmt.Sprintf("emptyspecial %s %d %s", fam, variant, zzverif.Hex([]byte(text)))
+	switch {
+	case childAnswer == "hang":
+		out.Count("emptyspecial_hang")
+		out.L2("encode-hang", cl, fmt.Sprintf("Encode(%q) did not return within 1.5s: the vocabulary has an empty token typed CONTROL (variant %d)", text, variant))
+	case strings.HasPrefix(childAnswer, "returned"):
+		out.Count("emptyspecial_returned")
+		verifEmptySpecialTok(fam, variant).runCase(enc, []verifSeg{{text, false}}, false, out)
+	default:
+		out.L2("encode-error", cl, childAnswer)
+	}
+}
+
+func verifEmptySpecialCases(enc [256]int, out *zzverif.Out) {
+	type job struct {
+		fam     string
+		variant int
+		text    string
+		ans     string
+	}
+	var jobs []*job
+	for _, fam := range []string{"bpe", "spm"} {
+		for variant := 0; variant < 4; variant++ {
+			for _, text := range []string{"ab", "a<s>b c"} {
+				jobs = append(jobs, &job{fam: fam, variant: variant, text: text})
+			}
+		}
+	}
+	var wg sync.WaitGroup
+	for _, j := range jobs {
+		wg.Add(1)
+		go func(j *job) {
+			defer wg.Done()
+			j.ans = verifRunChild(fmt.Sprintf("%s %d %s", j.fam, j.variant, zzverif.Hex([]byte(j.text))))
+		}(j)
+	}
+	wg.Wait()
+	for _, j := range jobs {
+		verifEmptySpecialCase(enc, j.fam, j.variant, j.text, j.ans, out)
+	}
 }
 
 // ---- Tie 1c: facts about the SentencePiece code obtained by EXECUTING it over finite domains
@@ -748,7 +892,7 @@ type verifFrag struct {
 func verifFragments(specials []string, s string) []verifFrag {
 	frs := []verifFrag{{s, false}}
 	for _, sp := range specials {
-		if !strings.Contains(s, sp) {
+		if sp == "" || !strings.Contains(s, sp) { // an Encode that returns has skipped an empty special token
 			continue
 		}
 		var next []verifFrag
@@ -863,7 +1007,7 @@ func (tk *verifTok) opBPE(enc [256]int, text string, add bool, out *zzverif.Out)
 	fmt.Fprintf(&sb, "bpe %s %s", tk.addCfg(add), zzverif.Hex([]byte(text)))
 	var sps, lits []string
 	for _, sp := range tk.specials {
-		if strings.Contains(text, sp) {
+		if sp != "" && strings.Contains(text, sp) {
 			sps = append(sps, fmt.Sprintf("%s %s %d", zzverif.Hex([]byte(sp)), verifRunes(sp), v.Encode(sp)))
 			lits = append(lits, sp)
 		}
@@ -974,7 +1118,7 @@ func (tk *verifTok) opSPM(text string, add bool, out *zzverif.Out) string {
 	fmt.Fprintf(&sb, "spm %s %s", tk.addCfg(add), verifRunes(text))
 	var sps []string
 	for _, sp := range tk.specials {
-		if strings.Contains(text, sp) {
+		if sp != "" && strings.Contains(text, sp) {
 			sps = append(sps, fmt.Sprintf("%s %d", verifRunes(sp), v.Encode(sp)))
 		}
 	}
@@ -1023,6 +1167,9 @@ type verifSeg struct {
 
 var verifByteLit = regexp.MustCompile(`<0x[0-9A-F]{2}>`)
 
+// the rune->byte table observed by verifByteMap (set by TestVerifC20 before any case runs)
+var verifDecTable [0x180]int
+
 // classify a round-trip difference (used as the L2 detail, which known-finding signatures match on)
 func (tk *verifTok) diffClass(text, dec string) string {
 	if tk.family == "bpe" {
@@ -1032,17 +1179,41 @@ func (tk *verifTok) diffClass(text, dec string) string {
 		// a special token whose vocabulary string does not decode to itself (non-ASCII characters go through
 		// the rune->byte unmapping like ordinary tokens): replace its occurrences (as the reference splitting
 		// finds them) by what Decode makes of the id
-		x, n := "", 0
+		// a special token whose literal has a NON-ASCII rune: Decode sends its vocabulary string through the rune->byte
+		// unmapping like any other token.  The expected output is computed here from the REGENERATED rune->byte table
+		// (verifDecTable; byte(r) beyond it), not by asking the code under test; an ASCII special token that does not
+		// decode to itself, or any other image, is a different (new) failure.
+		x, n, ascii := "", 0, 0
 		for _, f := range verifFragments(tk.specials, text) {
-			if f.sp {
-				raw, _ := tk.tp.Decode([]int32{tk.vocab.Encode(f.v)})
-				if raw != f.v {
-					n++
-				}
-				x += raw
-			} else {
+			if !f.sp {
 				x += f.v
+				continue
 			}
+			nonASCII := false
+			var img []byte
+			for _, r := range f.v {
+				if r >= 0x80 {
+					nonASCII = true
+				}
+				switch {
+				case int(r) < len(verifDecTable) && verifDecTable[r] < 0: // skipped (U+0100)
+				case int(r) < len(verifDecTable):
+					img = append(img, byte(verifDecTable[r]))
+				default:
+					img = append(img, byte(r))
+				}
+			}
+			if string(img) != f.v {
+				if nonASCII {
+					n++
+				} else {
+					ascii++
+				}
+			}
+			x += string(img)
+		}
+		if ascii > 0 {
+			return "diff=special-literal-ascii-not-self-decoding"
 		}
 		if n > 0 && x == dec {
 			return "diff=special-literal-not-self-decoding"
@@ -1055,15 +1226,58 @@ func (tk *verifTok) diffClass(text, dec string) string {
 	if strings.ReplaceAll(text, "▁", " ") == dec {
 		return "diff=sep-to-space"
 	}
-	if verifByteLitAlign(strings.ReplaceAll(text, "▁", " "), dec) {
+	switch verifByteLitFragments(verifFragments(tk.specials, text), dec) {
+	case 1:
 		return "diff=byte-literal"
+	case 2:
+		return "diff=byte-literal+sep-to-space"
+	}
+	if verifByteLitAlign(strings.ReplaceAll(text, "▁", " "), dec) {
+		return "diff=byte-literal-inside-fragment" // NOT the known finding: the literal is not a whole fragment
 	}
 	return "diff=other"
 }
 
-// verifByteLitAlign: dec is text with at least one occurrence of a byte-token literal `<0xNN>` replaced by
-// the byte NN and nothing else changed (only a fragment that IS such a literal is affected, so some
-// occurrences may be kept).
+var verifByteLitWhole = regexp.MustCompile(`^<0x[0-9A-F]{2}>$`)
+
+// verifByteLitFragments: dec is the text with at least one WHOLE FRAGMENT that is a byte-token literal `<0xNN>` replaced by
+// the byte NN (finding SPM-byte-literal: the whole-fragment shortcut), every other fragment unchanged except (result 2)
+// U+2581 -> space (finding SPM-sep).  0 = no.
+func verifByteLitFragments(frs []verifFrag, dec string) int {
+	j, n, sep := 0, 0, false
+	for _, f := range frs {
+		if verifByteLitWhole.MatchString(f.v) { // a text fragment, or a byte token that is itself typed CONTROL (special fragment)
+			b, _ := strconv.ParseUint(f.v[3:5], 16, 8)
+			if strings.HasPrefix(dec[j:], f.v) {
+				j += len(f.v)
+			} else if j < len(dec) && dec[j] == byte(b) {
+				j, n = j+1, n+1
+			} else {
+				return 0
+			}
+			continue
+		}
+		want := f.v
+		if !f.sp && strings.Contains(want, "▁") {
+			want = strings.ReplaceAll(want, "▁", " ")
+			sep = true
+		}
+		if !strings.HasPrefix(dec[j:], want) {
+			return 0
+		}
+		j += len(want)
+	}
+	if j != len(dec) || n == 0 {
+		return 0
+	}
+	if sep {
+		return 2
+	}
+	return 1
+}
+
+// verifByteLitAlign: dec is text with at least one occurrence of a byte-token literal `<0xNN>` ANYWHERE replaced by
+// the byte NN and nothing else changed (used only to name the new class byte-literal-inside-fragment).
 func verifByteLitAlign(text, dec string) bool {
 	i, j, n := 0, 0, 0
 	for i < len(text) {
@@ -1213,7 +1427,7 @@ func (tk *verifTok) runCall(tmpl *verifTok, enc [256]int, c verifCall, cl string
 		out.L2("encode-error", cl, err.Error())
 		return
 	}
-	for _, id := range ids0 {
+	for _, id := range append(append([]int32(nil), ids0...), ids...) { // without and with BOS/EOS
 		if id < 0 || int(id) >= len(tk.vocab.Values) {
 			out.L2("id-range", cl, fmt.Sprintf("id %d outside [0,%d)", id, len(tk.vocab.Values)))
 			break
@@ -1426,7 +1640,8 @@ func verifFixedCases() [][]verifSeg {
 }
 
 func TestVerifC20(t *testing.T) {
-	enc, _, problems := verifByteMap(t)
+	enc, dec, problems := verifByteMap(t)
+	verifDecTable = dec
 	toks := verifTokenizers(t, enc)
 	out := zzverif.NewOut()
 	defer out.Close()
@@ -1448,6 +1663,11 @@ func TestVerifC20(t *testing.T) {
 		f := strings.Fields(line)
 		if len(f) == 2 && f[0] == "vocabdata" {
 			return verifVocabReplay(f[1], lookup, out)
+		}
+		if len(f) == 4 && f[0] == "emptyspecial" {
+			variant, _ := strconv.Atoi(f[2])
+			verifEmptySpecialCase(enc, f[1], variant, string(zzverif.Unhex(f[3])), verifRunChild(strings.Join(f[1:], " ")), out)
+			return true
 		}
 		if len(f) < 3 || len(f)%2 != 1 || lookup(f[0]) == nil {
 			return false
@@ -1474,6 +1694,8 @@ func TestVerifC20(t *testing.T) {
 		for _, line := range strings.Split(file, "\n") {
 			if runLine(line) {
 				out.Count("corpus_cases")
+			} else if strings.TrimSpace(line) != "" && !strings.HasPrefix(line, "#") {
+				out.Count("corpus_lines_ignored")
 			}
 		}
 	}
@@ -1545,6 +1767,9 @@ func TestVerifC20(t *testing.T) {
 		}
 	}
 	thorough := os.Getenv("VERIF_TIER") == "thorough"
+
+	// vocabularies with an empty CONTROL token (finding empty-special-hang): Encode only ever in a child process
+	verifEmptySpecialCases(enc, out)
 
 	// the Vocabulary type itself (Encode / Decode / Merge / SpecialVocabulary) against the Lean `VocabData`
 	verifVocabCases(toks, rtoks, map[bool]int{false: 400, true: 4000}[thorough], out)
@@ -1737,6 +1962,8 @@ func verifCorpus() []string {
 		b, err := os.ReadFile(m)
 		if err == nil {
 			out = append(out, string(b))
+		} else {
+			out = append(out, "unreadable corpus file "+m)
 		}
 	}
 	return out
